@@ -15,9 +15,15 @@
   * properties: `map_to_properties` then `map_load_properties` — theorems `C17_props_…` in
     `Props/C17Props.lean` (model `Sdk/Properties.lean` of the `java-properties` writer/reader).
 
-  Not covered by a theorem: the JSON text layer (`serde_json`) — see obligations `partial`.
+  * JSON text layer (`serde_json::from_str` / `Value::to_string`, model `Sdk/JsonText.lean`):
+    theorems `C17_jsontext_…` in `Props/C17Json.lean` (the reader undoes the compact writer);
+    composed with the AST theorem below: `C17_jsontext_encode_roundtrip` (the TEXT
+    `json_encode --collection` returns reads back as the normalised document) and
+    `C17_jsontext_commands_roundtrip` (text in, text out).  Numbers the crate reads as `f64`
+    are outside the text model — see obligations `partial`.
 -/
 import DuckModel.Props.C17Props
+import DuckModel.Props.C17Json
 import DuckModel.Sdk.Encode
 import DuckModel.Sdk.Utf8Decode
 import DuckModel.Lemmas.EncodeLemmas
@@ -103,6 +109,92 @@ theorem C17_json_parse_allocates (doc : Json) (hno : NoHandle handleKey doc) :
   have := parseJ_length handleKey_injective doc {} (inv_empty _) hno
   simpa [parseToStore] using this
 
+open Duck.JsonText in
+/-- JSON, text level, AST in / text out: for every document (in the domain of
+    `C17_json_roundtrip`, objects with strictly increasing keys as in a `serde_json::Map`, at
+    most 127 nested containers) the value `json_parse --collection` returns encodes to the
+    normalised document `j`; the TEXT `json_encode --collection` returns is the compact text of
+    `j`, and `serde_json::from_str` reads that text back as `j` -/
+theorem C17_jsontext_encode_roundtrip (doc : Json) (hno : NoHandle handleKey doc)
+    (hs : SortedKeys doc = true) (hd : depth doc ≤ 127) :
+    match (parseToStore doc).1 with
+    | none => norm doc = none
+    | some v => ∃ j, norm doc = some j ∧
+        (encodeFromStore (parseToStore doc).2 v).map printJson = .ok (printJson j) ∧
+        parseJson (printJson j) = some j := by
+  have h := C17_json_roundtrip doc hno
+  cases hv : (parseToStore doc).1 with
+  | none => rw [hv] at h; exact h
+  | some v =>
+    rw [hv] at h
+    obtain ⟨j, hj, he⟩ := h
+    have hc := C17_jsontext_norm_stringdoc doc j hs hj
+    refine ⟨j, hj, ?_, C17_jsontext_roundtrip j hc.1 (by omega)⟩
+    rw [he]; rfl
+
+open Duck.JsonText in
+/-- JSON, text level, text in / text out: for every document of the modelled class (exact
+    integers, sorted keys; depth ≤ 127; no text that names a live handle) written compactly
+    with any white space around it, `json_parse --collection` followed by
+    `json_encode --collection` returns exactly the compact text of the normalised document (no
+    value when the document is `null`), and that text reads back as the normalised document -/
+theorem C17_jsontext_commands_roundtrip (doc : Json) (w w' : List Char)
+    (hw : ∀ c ∈ w, JsonText.isWs c = true) (hw' : ∀ c ∈ w', JsonText.isWs c = true) (ht : TextDoc doc = true)
+    (hd : depth doc ≤ 127) (hno : NoHandle handleKey doc) :
+    parseEncodeText (w ++ printJson doc ++ w') =
+      .ok ((norm doc).map fun j => .ok (printJson j)) ∧
+    ∀ j, norm doc = some j → parseJson (printJson j) = some j := by
+  have hs : SortedKeys doc = true := by
+    simp only [TextDoc, Bool.and_eq_true] at ht; exact ht.2
+  have hn : ExactNums doc = true := by
+    simp only [TextDoc, Bool.and_eq_true] at ht; exact ht.1
+  constructor
+  · unfold parseEncodeText
+    rw [parseJsonE_print doc w w' hw hw' hn hs hd]
+    have h := C17_json_roundtrip doc hno
+    dsimp only
+    cases hv : (parseToStore doc).1 with
+    | none => rw [hv] at h; simp [h]
+    | some v =>
+      rw [hv] at h
+      obtain ⟨j, hj, he⟩ := h
+      simp [hj, he]
+  · intro j hj
+    have hc := C17_jsontext_norm_stringdoc doc j hs hj
+    exact C17_jsontext_roundtrip j hc.1 (by omega)
+
+open Duck.JsonText Duck.JsonCst in
+/-- C17 for JSON on the level of TEXTS, every text: for every JSON text (a well-formed concrete
+    syntax tree `c` of `Spec/JsonCst.lean`: any white space, any escape spelling, members in any
+    order, keys repeated; numbers exact integers; at most 127 nested containers; white space
+    around it) none of whose texts names a live handle, `json_parse --collection` followed by
+    `json_encode --collection` returns exactly the compact text of the normalisation of the
+    document the text denotes (no value for `null`), and that text reads back as the normalised
+    document -/
+theorem C17_jsontext_text_roundtrip (c : Cst) (w w' : List Char) (hw : allWs w = true)
+    (hw' : allWs w' = true) (hc : WF c = true) (hd : cdepth c ≤ 127)
+    (hno : NoHandle handleKey (value c)) :
+    parseEncodeText (w ++ render c ++ w') =
+      .ok ((norm (value c)).map fun j => .ok (printJson j)) ∧
+    ∀ j, norm (value c) = some j → parseJson (printJson j) = some j := by
+  obtain ⟨ht, hdv⟩ := C17_jsontext_value_in_class c hc
+  have hs : SortedKeys (value c) = true := by
+    simp only [TextDoc, Bool.and_eq_true] at ht; exact ht.2
+  constructor
+  · unfold parseEncodeText
+    rw [parseJsonE_render c w w' hw hw' hc hd]
+    have h := C17_json_roundtrip (value c) hno
+    dsimp only
+    cases hv : (parseToStore (value c)).1 with
+    | none => rw [hv] at h; simp [h]
+    | some v =>
+      rw [hv] at h
+      obtain ⟨j, hj, he⟩ := h
+      simp [hj, he]
+  · intro j hj
+    have hcl := C17_jsontext_norm_stringdoc (value c) j hs hj
+    exact C17_jsontext_roundtrip j hcl.1 (by omega)
+
 /-! ## Non-vacuity -/
 section Examples
 
@@ -153,6 +245,19 @@ example : NoHandle handleKey doc1 := by
     code recurses until the stack overflows) -/
 example : encodeFromStore (parseToStore (.arr (.cons (.str (handleKey 0)) .nil))).2 (handleKey 0)
     = .error .fuel := by rfl
+
+/-- the text-level theorems apply to `doc1` (keys `a`, `k k`, `n` are NOT sorted there, so the
+    sorted variant is used): hypotheses hold, the text is as expected -/
+private def doc1s : Json :=
+  .obj (.cons "a".toList (.arr (.cons (.num "1".toList) (.cons .null (.cons (.str "x\n".toList)
+      (.cons (.obj (.cons "b".toList (.bool true) .nil)) .nil)))))
+    (.cons "k k".toList (.arr .nil) (.cons "n".toList .null .nil)))
+
+example : JsonText.TextDoc doc1s = true ∧ JsonText.depth doc1s = 3 := by decide
+example : JsonText.printJson doc1s =
+    "{\"a\":[1,null,\"x\\n\",{\"b\":true}],\"k k\":[],\"n\":null}".toList := by rfl
+example : (norm doc1s).map JsonText.printJson =
+    some "{\"a\":[\"1\",\"x\\n\",{\"b\":\"true\"}],\"k k\":[]}".toList := by decide +kernel
 
 /-- a store with an unsupported value -/
 example : encodeFromStore { next := 1, entries := [(handleKey 0, .other)] } (handleKey 0)
